@@ -18,13 +18,17 @@ Definition frac_lt (thr : float) (n d : Z) : bool := fltb (fdiv (of_Z n) (of_Z d
 Definition frac_gt (thr : float) (n d : Z) : bool := fltb thr (fdiv (of_Z n) (of_Z d)).
 
 Definition zrange (lo : Z) (k : nat) : list Z := map (fun i => lo + Z.of_nat i) (seq 0 k).
-Definition THRESHOLD_BOUND : Z := 1500.
-(* for every 0 <= n <= 1500, 1 <= d <= 1500: the float comparisons agree with 10 n < 9 d and 9 d < 10 n *)
-Definition threshold_table_ok (thr : float) : bool :=
-  forallb (fun d =>
-    forallb (fun n => Bool.eqb (frac_lt thr n d) (10 * n <? 9 * d) && Bool.eqb (frac_gt thr n d) (9 * d <? 10 * n))
-            (zrange 0 1501))
-          (zrange 1 1500).
+Definition THRESHOLD_BOUND : nat := 1000.
+(* for every 0 <= n <= bound, 1 <= d <= bound: the float comparisons agree with 10 n < 9 d and 9 d < 10 n
+   (the conversions to binary64 are shared between the rows of the table) *)
+Definition threshold_table (bound : nat) (thr : float) : bool :=
+  let ns := map (fun z => (z, of_Z z)) (zrange 0 (S bound)) in
+  forallb (fun df : Z * float =>
+    (fst df =? 0) ||
+    forallb (fun nf : Z * float =>
+       Bool.eqb (fltb (fdiv (snd nf) (snd df)) thr) (10 * fst nf <? 9 * fst df)
+       && Bool.eqb (fltb thr (fdiv (snd nf) (snd df))) (9 * fst df <? 10 * fst nf)) ns) ns.
+Definition threshold_table_ok (thr : float) : bool := threshold_table THRESHOLD_BOUND thr.
 
 (* math.ceil / math.floor of a non-negative binary64 below 4000, by search *)
 Fixpoint ceil_search (fuel : nat) (k : Z) (x : float) : Z :=
